@@ -6,6 +6,7 @@
 //   E <id> <count> <a> <b>             parallel_foreach over vector<long>(count) [begin+a, end-b)
 //   H <id> <step> <step> ...          a HISTORY of loops in this process; steps (see do_H): ordinary loops that must be
 //                                      complete, loops whose body throws (caller catches), nested loops with a failing inner loop
+//   S <id> <nlo> <nhi> <box_ms>        join stress: short loops of trivial bodies for box_ms; every index must have run when the call returns
 //   M <id> <distance>                  parallel_foreach over <distance> unsigned chars of an untouched NORESERVE mapping
 //   T <id> <n> <prefill> <park>        (internal backend only) recorded ITaskSet(n) added through the enkiTS
 //                                      API with <prefill> trivial sets already in the caller's pipe and, if
@@ -27,6 +28,7 @@
 #include <algorithm>
 #include <unistd.h>
 #include <sys/mman.h>
+#include <signal.h>
 
 #include "rkcommon/tasking/parallel_for.h"
 #include "rkcommon/tasking/parallel_foreach.h"
@@ -451,6 +453,58 @@ static void do_H(const char *id, const std::vector<std::string> &steps)
   fflush(stdout);
 }
 
+// ------------------------------------------------------------------ S: join stress (aimed at oversubscribed internal backend)
+// Thousands of short loops with a trivial body in a time box.  Round r writes r into a HEAP array slot per index; when
+// parallel_for returns every slot of [0,n) must hold r (plain reads, no further synchronisation): a slot still holding an
+// older round is an index that had not run when the call returned.  After a miss the slots are read again after a pause:
+// slots that changed meanwhile are writes by late workers after the return.  State-based: no timing threshold.
+static volatile int g_s_round = 0, g_s_n = 0, g_s_T = 0;
+static void stress_crash_handler(int sig)
+{
+  // a late worker ran on the caller's dead stack frame (the loop had returned): report the configuration, async-signal-safe
+  char b[200];
+  int k = snprintf(b, sizeof b, "%s BAD threads=%d n=%d round=%d crashed_with_signal=%d (work still running after parallel_for returned)\n",
+                   g_case, g_s_T, g_s_n, g_s_round, sig);
+  if (write(1, b, k) < 0) {}
+  _exit(5);
+}
+static void do_S(const char *id, int nlo, int nhi, int box_ms, int T)
+{
+  g_s_T = T;
+  signal(SIGSEGV, stress_crash_handler); signal(SIGBUS, stress_crash_handler); signal(SIGILL, stress_crash_handler);
+  signal(SIGFPE, stress_crash_handler); signal(SIGABRT, stress_crash_handler);
+  std::vector<unsigned> mark((size_t)nhi + 1, 0);
+  unsigned round = 0;
+  u64 x = 88172645463325252ULL ^ (u64)T ^ ((u64)nlo << 20) ^ (u64)now_ms();
+  long long end = now_ms() + box_ms;
+  while (now_ms() < end) {
+    for (int rep = 0; rep < 32; ++rep) {
+      ++round;
+      x ^= x << 13; x ^= x >> 7; x ^= x << 17;
+      int n = nlo + (int)(x % (u64)(nhi - nlo + 1));
+      unsigned *m = mark.data();
+      const unsigned r = round;
+      g_s_round = (int)round; g_s_n = n;
+      {
+        Armed a;
+        parallel_for(n, [m, r](int i) { m[i] = r; });
+      }
+      int missing = 0, first = -1;
+      for (int i = 0; i < n; ++i) if (m[i] != r) { if (first < 0) first = i; missing++; }
+      if (missing) {
+        std::vector<int> miss; for (int i = 0; i < n; ++i) if (m[i] != r) miss.push_back(i);
+        std::this_thread::sleep_for(std::chrono::milliseconds(50));
+        int late = 0; for (int i : miss) late += m[i] == r;
+        printf("%s BAD threads=%d n=%d round=%u indices_not_run_at_return=%d first=%d written_after_return=%d\n", id, T, n, round, missing, first, late);
+        fflush(stdout);
+        _exit(0);      // late workers may still hold the dead stack frame's task: stop here
+      }
+    }
+  }
+  printf("%s rounds=%u ok\n", id, round);
+  fflush(stdout);
+}
+
 // ------------------------------------------------------------------ M: parallel_foreach over a huge sparse range
 // d elements of unsigned char in a MAP_NORESERVE mapping; the body only takes the element's address (no page is
 // touched) except for the last 64 elements, which it writes: a distance above INT_MAX costs no memory.
@@ -577,6 +631,8 @@ int main(int argc, char **argv)
       else { printf("%s bad-type\n", id); fflush(stdout); }
     } else if (kind[0] == 'E') {
       do_E(id, atol(a), atol(b), atol(c));
+    } else if (kind[0] == 'S') {
+      do_S(id, atoi(a), atoi(b), atoi(c), T);
     } else if (kind[0] == 'M') {
       do_M(id, strtoull(a, 0, 10));
     } else if (kind[0] == 'T') {
